@@ -27,7 +27,11 @@ InitFiles == {fs \in [Kinds -> Present \cup {Missing, Empty}] :
                 \A a, b \in Kinds : (a # b /\ IsPresent(fs[a]) /\ IsPresent(fs[b])) => fs[a].iface # fs[b].iface}
 
 on(d) == d \in Enabled
-\* as built: a function / argparse target that exists is never replaced; a missing function target makes the command fail
+\* as built: a function / argparse target that exists is never replaced.
+\* (Two departures about MISSING target files were repaired, 8ffabf7 -- the creating path did not pass the asked-for names: a missing
+\* function target made the command fail; a missing class target was created under the truth's own name.  Their actions stay in the
+\* module, inert unless listed, as the record of the three-run settling that trace validation had to discover
+\* step by step.)
 NotReplaced(k, f) == on("sync_functiondef_not_replaced") /\ k \in {"fn", "ap"} /\ IsPresent(f)
 MissingFnRaises(fs, truth) == on("sync_missing_function_target_raises") /\ truth # "fn" /\ fs["fn"].around \in {"missing"}
 
